@@ -33,6 +33,10 @@ CONSTANTS
     Deviations,   \* subset of AllDeviations
     MaxLevel,     \* behaviours are cut after MaxLevel actions
     Acts,         \* names of the enabled actions
+    TrackSession, \* TRUE: the kind of session is part of the state - "fresh" (right after Reopen: nothing written yet,
+                  \* Workspace.repack, the dirty flag of the attribute records, is clear), "attr" (only attribute edits
+                  \* - Protect, Rename - since Reopen) or "mixed" - so that the transition cover contains
+                  \* Reopen -> attribute edits only -> Reopen (the records are written at close only)
     Kind          \* "float" | "text" : primitive type of the payload data a, b (the harness maps value tokens to
                   \* floats or to labels of different lengths); TextData.values has no length check, so text
                   \* values are only re-assigned with the table's length
@@ -405,14 +409,18 @@ TableView(S) == [p \in PgNames |-> [pred |-> PredTable(S, p), ideal |-> IdealTab
 \* ------------------------------------------------------------------ behaviour
 EmptyStore == [gch |-> <<>>, hs |-> [h \in Holes |-> NoHole], attrs |-> <<>>, akeys |-> <<>>, objIds |-> <<>>,
                labels |-> {}, cat |-> [l \in Labels |-> <<>>], idx |-> [l \in Labels |-> <<>>], pgc |-> {},
-               broken |-> FALSE, halt |-> FALSE]
+               broken |-> FALSE, halt |-> FALSE, sess |-> "mixed"]
 NoTgt == [holes |-> {}, names |-> {}]
 Init == s = EmptyStore /\ last = [act |-> "Init", args |-> [x |-> 0], out |-> "ok", dev |-> {}, tgt |-> NoTgt]
 
 \* after every action the harness reads the tables: the group's id cache is (re)loaded when empty
 Settle(S) == LoadPgc(S)
 Done(S, act, args, out, dev, tgt) ==
-    /\ s' = Settle(S)
+    /\ s' = [Settle(S) EXCEPT !.sess = IF ~TrackSession THEN "mixed"
+                                       ELSE IF act = "Reopen" THEN (IF out = "ok" THEN "fresh" ELSE "mixed")
+                                       ELSE IF out = "refused" THEN s.sess
+                                       ELSE IF act \in {"Protect", "Rename"} /\ s.sess \in {"fresh", "attr"} THEN "attr"
+                                       ELSE "mixed"]
     /\ last' = [act |-> act, args |-> args, out |-> out, dev |-> dev, tgt |-> tgt]
 Refused(act, args) == Done(s, act, args, "refused", {}, NoTgt)
 Usable(h) == s.hs[h].st = "live" /\ ~Unclean(s, h)
